@@ -299,6 +299,8 @@ def drive(SQRA, sysd, form, cls=None, sample=False):
             REC.classes["has pair beyond cap"] += 1
         # metamorphic 1: constant shift of all energies (pairs within 1e-6 of the cap excluded: the capped branch may flip)
         c = float(np.random.default_rng(n).normal(0, 1000))
+        if n % 3 == 0:
+            c = [-4.0e5, 1.0e6, 2.5e4][n // 3 % 3]     # total (QM-style) energies: the common offset dwarfs every difference
         s2, h2 = build(SQRA, sysd, form)
         Q2 = np.asarray(SQRA(energies=np.asarray(E, dtype=float) + c, volumes=V.copy(), distances=h2, surfaces=s2).get_rate_matrix(D, T).todense())
         if not np.any(np.abs(np.abs(dE) - CAP) < 1e-6):
